@@ -71,6 +71,8 @@ def find_spec(interp, frame, node):
         # library model: the invariant belongs to the call site (the nearest repository frame)
         for fr in reversed(interp.frame_stack):
             if not _is_pymodel(fr.info.filename):
+                if fr.model_site is None and fr.reduce_site is None:
+                    return None, ordinal      # an ordinary loop of a Python-level model (no call-site spec)
                 key = fr.model_site if fr.model_site is not None else 'reduce#%d' % fr.reduce_site
                 spec = interp.reg.loops_by_key.get((fr.info.filename, fr.info.qualname, key))
                 return spec, key
@@ -147,8 +149,10 @@ def _env_of(interp, frame, extra):
         env.update(d)
     env.update(frame.locals)
     env.update(interp.reg.ghost_env)
-    # ghost state / ghost event trace of the path (as in contract clauses); a local of that name wins
-    env.setdefault('ghost', interp.st.ghost)
+    env['ghost'] = interp.st.ghost       # ghost (monitor) state of models and contracts
+    # indices of the (enclosing) loops with invariants: `_i_<ordinal>`
+    for o, t in getattr(frame, 'loop_index', {}).items():
+        env['_i_%s' % o] = t
     env.setdefault('trace', interp.st.trace)
     env.update(extra)
     return env
@@ -242,6 +246,17 @@ def _havoc(interp, frame, spec, modified_names, tag):
                 # object field:  'self._x' / 'self._o.segments'
                 parts = name.split('.')
                 obj = frame.locals.get(parts[0])
+                if obj is None:
+                    for d in reversed(frame.enclosing):      # a variable of an enclosing function
+                        if parts[0] in d:
+                            obj = d[parts[0]]
+                            break
+                if obj is None and _is_pymodel(frame.info.filename):
+                    # library model: the names of the call site
+                    for fr in reversed(interp.frame_stack):
+                        if not _is_pymodel(fr.info.filename):
+                            obj = fr.locals.get(parts[0])
+                            break
                 if obj is None:
                     raise Unsupported('modifies entry %r: unknown base' % name)
                 for a in parts[1:-1]:
@@ -407,6 +422,9 @@ def _for_symbolic(interp, node, frame, src):
                           % (frame.info.qualname, node.lineno))
     fname = interp.current_function_name()
     label = '%s : loop#%s' % (fname, ordinal)
+    if '.<locals>.' in frame.info.qualname and not _is_pymodel(frame.info.filename):
+        # a loop of a nested function: ordinals count per function
+        label = '%s : %s loop#%s' % (fname, frame.info.qualname.rpartition('.<locals>.')[2], ordinal)
     modified, _targets = _check_frame(spec, node)
     enum_start = None
     it_cell = None
@@ -422,8 +440,10 @@ def _for_symbolic(interp, node, frame, src):
         start = z3.IntVal(0)
     n = xs.length
 
+    entry = _call_pred(interp, spec.entry, _env_of(interp, frame, {})) if getattr(spec, 'entry', None) else None
+
     def env(i):
-        e = {'_i': wrap(i), '_xs': xs, '_n': wrap(n), '_start': wrap(start)}
+        e = {'_i': wrap(i), '_xs': xs, '_n': wrap(n), '_start': wrap(start), '_entry': entry}
         if interp.loop_index_stack:
             e['_o'] = wrap(interp.loop_index_stack[-1])      # index of the enclosing symbolic loop
         return _env_of(interp, frame, e)
@@ -437,6 +457,7 @@ def _for_symbolic(interp, node, frame, src):
         i = st.fresh_int('_i@' + tag)
         st.assume(z3.And(i >= start, i < n))
         st.assume(interp.truth(_call_pred(interp, spec.invariant, env(i))))
+        frame.loop_index[ordinal] = wrap(i)
         x = models.slist_elem(interp, xs, i)
         if enum_start is not None:
             x = (interp.binop(ast.Add, enum_start, wrap(i - start)), x)
@@ -463,6 +484,7 @@ def _for_symbolic(interp, node, frame, src):
     # exit: all elements consumed
     st.assume(start <= n)
     st.assume(interp.truth(_call_pred(interp, spec.invariant, env(z3.If(start <= n, n, start)))))
+    frame.loop_index[ordinal] = wrap(n)
     if it_cell is not None:
         it_cell.pos = wrap(n)
     if node.orelse:
